@@ -227,6 +227,9 @@ def regenerate(repo, outdir):
         fl.append(f"def {k} : Bool := {'true' if v else 'false'}")
     fl += ["", "end Askar.Generated.Flags", ""]
     write_if_changed(os.path.join(outdir, "Flags.lean"), "\n".join(fl))
+    # --- C09: constants of the storage scheme (field names, sizes, Argon2 parameter sets, schema, config rows)
+    import extract_c09
+    extract_c09.regenerate(repo, outdir)
     return env
 
 
